@@ -183,7 +183,7 @@ Definition cexec_block (c : cfg) (L : vmap) (s : cstore) (b : block) : option cs
 
 (* the path continues with a successor of the block, and with the one the branch condition
    selects: the true target if the value of the condition is not 0, otherwise the false
-   target (the other successor when the statement names none); a run whose condition has
+   target (the other of the two successors when the statement names none); a run whose condition has
    no value stops; a block that does not end with a condition has one successor *)
 Definition branch_okb (s : cstore) (b : block) (next : nat) : bool :=
   let j := N.of_nat next in
@@ -191,7 +191,13 @@ Definition branch_okb (s : cstore) (b : block) (next : nat) : bool :=
   match last (b_stmts b) (SLog {| m_start := 0%N; m_end := 0%N; m_file := None |} []) with
   | SIf _ cond t f =>
     match cval s cond with
-    | Some v => if v [] =? 0 then match f with Some fi => N.eqb fi j | None => negb (N.eqb t j) end else N.eqb t j
+    | Some v =>
+      if v [] =? 0
+      then match f with
+           | Some fi => N.eqb fi j
+           | None => match b_succs b with [x; y] => N.eqb j (if N.eqb t x then y else x) | _ => false end
+           end
+      else N.eqb t j
     | None => false
     end
   | _ => match b_succs b with [_] => true | _ => false end
